@@ -142,19 +142,19 @@ func (q query) apply(doc *ref.Doc, today ref.Date) (out []expectedRec, undecided
 			for _, k := range idxs {
 				en := &r.Entries[k]
 				match := false
-				switch q.EntryType {
+				switch strings.ReplaceAll(strings.ToLower(q.EntryType), "_", "-") {
 				case "range":
 					match = en.Kind == ref.KRange
-				case "open-range", "open_range":
+				case "open-range":
 					match = en.Kind == ref.KOpen
 				case "duration":
 					match = en.Kind == ref.KDur
-				case "duration-positive", "duration_positive":
+				case "duration-positive":
 					match = en.Kind == ref.KDur && en.Dur.Mins >= 0
 					if en.Kind == ref.KDur && en.Dur.Mins == 0 {
 						undecided = true
 					}
-				case "duration-negative", "duration_negative":
+				case "duration-negative":
 					match = en.Kind == ref.KDur && en.Dur.Mins < 0
 					if en.Kind == ref.KDur && en.Dur.Mins == 0 {
 						undecided = true
